@@ -77,7 +77,7 @@ pub fn tr_loop(cx: &mut Ctx, kind: LoopKind, rest: &[Stmt], k: &Cont) -> R<Tr> {
             caps.push((n.clone(), ln, ty));
         }
     }
-    if ids.contains("self") && cx.self_ty.is_some() && cx.sig_params.iter().any(|p| p.0 == "self") {
+    if ids.contains("self") && cx.self_ty.is_some() && cx.sig_params.iter().any(|p| p.0 == "self") && !state_names.contains(&"self".to_string()) && !caps.iter().any(|c| c.0 == "self") {
         let st = cx.tybind.get("Self").cloned().unwrap();
         caps.push(("self".into(), "self".into(), st));
     }
@@ -85,7 +85,10 @@ pub fn tr_loop(cx: &mut Ctx, kind: LoopKind, rest: &[Stmt], k: &Cont) -> R<Tr> {
     let n = cx.aux_defs.len() + 1 + cx.loop_ctx.len() * 100 + cx.fresh;
     cx.fresh += 1;
     let name = format!("{}.loop{}", cx.fn_lean_name, n);
-    let ret_ty_s = cx.lean_ty(&cx.ret.clone())?;
+    let ret_ty_s = match &cx.full_ret_lean {
+        Some(s) => s.clone(),
+        None => cx.lean_ty(&cx.ret.clone())?,
+    };
     let state_ty = match state.len() {
         0 => Ty::Unit,
         1 => state[0].2.clone(),
@@ -186,7 +189,28 @@ pub fn tr_loop(cx: &mut Ctx, kind: LoopKind, rest: &[Stmt], k: &Cont) -> R<Tr> {
     };
     cx.aux_defs.push(def);
     // call site
-    let r = tr_stmts(cx, rest, k)?;
+    struct BreakFinder {
+        found: bool,
+        depth: usize,
+    }
+    impl<'ast> syn::visit::Visit<'ast> for BreakFinder {
+        fn visit_expr(&mut self, e: &'ast Expr) {
+            match e {
+                Expr::Break(_) if self.depth == 0 => self.found = true,
+                Expr::Closure(_) => {}
+                Expr::Loop(_) | Expr::While(_) | Expr::ForLoop(_) => {
+                    self.depth += 1;
+                    syn::visit::visit_expr(self, e);
+                    self.depth -= 1;
+                }
+                _ => syn::visit::visit_expr(self, e),
+            }
+        }
+    }
+    let mut bf = BreakFinder { found: false, depth: 0 };
+    syn::visit::Visit::visit_block(&mut bf, body);
+    let never_falls_through = matches!(kind, LoopKind::Loop(_)) && !bf.found;
+    let r = if never_falls_through { Tr::new("panicV", Ty::Never) } else { tr_stmts(cx, rest, k)? };
     let first_arg = if is_for { iter_tr.unwrap().s } else { LOOP_FUEL.to_string() };
     let st_args: String = state.iter().map(|s| format!(" {}", s.1)).collect();
     let direct = cx.loop_ctx.is_empty();
